@@ -42,6 +42,9 @@ func c08World(env *core.Env, idx int) *gen.World {
 		o.Dangling = []float64{0, 0.08, 0.2}[rng.Intn(3)]
 		o.IllTyped = []float64{0, 0.08, 0.15}[rng.Intn(3)]
 		o.MissingDoc = []float64{0, 0.05, 0.1}[rng.Intn(3)]
+		if idx%6 == 1 {
+			o.HollowDoc = 0.15
+		}
 	}
 	return gen.GenWorld(rng, o)
 }
@@ -232,6 +235,9 @@ func c08Run(env *core.Env, idx int) core.CaseResult {
 			}
 		}
 	}
+	if n := w.Features["fault.hollow-document"]; n > 0 {
+		res.Count("fault.hollow-document", n)
+	}
 	if n := w.Features["fault.dangling-pointer(near-miss)"]; n > 0 {
 		res.Count("fault.dangling-pointer(near-miss)", n)
 	}
@@ -378,13 +384,13 @@ func init() {
 		Level: "fault_enumeration",
 		Rule: "G-WORLD worlds with planted dangling pointers, missing documents and ill-typed (string/number/boolean/array) targets at every holder kind; per world the loader refuses every subset of the external documents " +
 			"(all 2^k subsets for k<=4, else singletons, pairs and 32 random subsets), each in strict and continue-on-error mode. strict: error iff some reachable $ref (containment + resolvable refs from the root's sections) is unresolvable; " +
-			"continue: no error, unresolvable schema $refs verbatim, everything else bisimilar to the input. dangling pointers include near misses (undeclared status code, one past the end of a list, absent name). " +
+			"continue: no error, unresolvable schema $refs verbatim, everything else bisimilar to the input. dangling pointers include near misses (undeclared status code, one past the end of a list, absent name) and pointers into documents whose content is null. " +
 			"plus: ExpandSchema/ExpandParameterWithRoot/ExpandResponseWithRoot against a root and the same root minus a referenced definition, both orders, one shared cache, typed and generic roots. non-trivial = some fault on a reachable $ref and some reachable $ref unaffected; distinct by world",
 		NumCases: c08NumCases,
 		Run:      c08Run,
 		Floors: func(env *core.Env) []string {
 			return []string{"fault.loader-refusal", "fault.missing-document", "fault.dangling-pointer", "fault.ill-typed", "fault-holder.schema", "fault-holder.parameter",
-				"fault-holder.response", "fault-holder.pathItem", "strict.error-expected", "strict.no-error-expected", "continue.with-faults", "worlds-with-all-subsets-enumerated", "repeated-failure-with-shared-cache", "second-root-with-shared-cache", "fault.dangling-pointer(near-miss)"}
+				"fault-holder.response", "fault-holder.pathItem", "strict.error-expected", "strict.no-error-expected", "continue.with-faults", "worlds-with-all-subsets-enumerated", "repeated-failure-with-shared-cache", "second-root-with-shared-cache", "fault.dangling-pointer(near-miss)", "fault.hollow-document"}
 		},
 		Exhaustive: func(env *core.Env) bool { return false },
 		Assumptions: []string{"the loader never refuses the root document itself",
